@@ -259,3 +259,17 @@ MANIFEST_TEXT['C07'] = (
  "Partial proof. Machine-checked for all states: a persistent registration carries no signal and changes no state; an auto-despawn handle is one reference to one signal (clone +1, drop -1), the drop of the last reference sends the reactor entity to the collector exactly once, and dropping a handle despawns nothing; a collection drains the channel completely, including what its own despawns add, and every collected entity is dead afterwards; despawning a reactor drops its boxed callback. The global reference count over whole runs is not a theorem: it is checked by differential runs of the lifetime profile (all three modes, empty bundles, bundles naming dead entities, every order of revoke / fire / despawn / collect) comparing live entities, system-state drops and table sizes after every top-level op. The signal and collector are verified against the real AutoDespawner in C10.",
  "Trusted: Coq kernel; model faithfulness (differential); Bevy semantics as modelled. Partial: the global reference count (no leak / no premature despawn over whole runs) is correspondence only.",
  "Coq proof of the step-level behaviour (partial) + model/implementation correspondence on live entities and state drops", "DESIGN.md §5 C07")
+
+PROPS['C08'] = P(
+    ['removal_is_recorded_once_partial', 'nothing_recorded_for_a_component_not_removed_partial', 'sequence_numbers_stay_below_the_counter_partial',
+     'poll_schedules_every_unread_removal_partial', 'removal_reactions_go_to_exactly_the_registered_reactors_partial', 'a_removal_is_read_once_partial',
+     'watched_entity_sent_once_on_despawn_partial', 'unwatched_entity_sends_nothing_partial', 'poll_schedules_every_despawn_reactor_partial',
+     'despawn_reactions_go_to_exactly_the_registered_reactors_partial', 'despawn_reactor_fires_at_most_once_per_entity_partial',
+     'poll_empties_the_despawn_channel_partial'],
+    ['poll', 'lifetime', 'mixed'], 'poll', determined=False,
+    assumes=['PARTIAL: step-level theorems for all states (recording, one poll, consumption); not proved: RSeq in every reachable state (preserved by the only writers of the two fields), that a poll happens by the end of the enclosing tree / frame (structural in Machine.exec), and the link from a scheduled reaction to exactly one run (C02 partial) — these rest on the correspondence (poll profile, frames with plain Bevy systems, direct world access)',
+             'Bevy RemovedComponents double-buffering is modelled by generation stamps and clear_trackers (World.v); causes in plain Bevy systems are the frame batches of TFrame'])
+MANIFEST_TEXT['C08'] = (
+ "Partial proof. Machine-checked for all states: each removal of a reactive component is recorded exactly once under a fresh sequence number and nothing is recorded for a component that was not removed; one poll schedules, for every record a checker has not read, exactly the reactions of the reactors registered for that removal (C01 dispatch exactness), and advances every cursor so that a record is read once; a watched entity is sent exactly once when it dies, a poll schedules one reaction per registered despawn handle, consumes the entity's table entry (at most one firing per watched entity) and empties the channel. Not proved: reachability of the sequence-number invariant, the timing of polls relative to trees and frames, and the scheduled-reaction-to-single-run link; checked by differential runs of the poll profile (inserts, removals, re-inserts and despawns between polls; causes in reactors, in frame batches and by direct access; several reactors and despawn triggers per entity).",
+ "Trusted: Coq kernel; model faithfulness (differential); Bevy RemovedComponents semantics as modelled. Partial: see above.",
+ "Coq proof of the step-level behaviour (partial) + model/implementation correspondence", "DESIGN.md §5 C08")
